@@ -308,3 +308,6 @@ func Same(a, b any) bool { return a == b }
 // in every order; PermuteOff stops counting and returns how many eligible ranges were executed.
 func PermuteOnly(k int) {}
 func PermuteOff() int  { return 0 }
+
+// Gid identifies the calling goroutine (symbolic executor only; natively 0).
+func Gid() int { return 0 }
